@@ -59,14 +59,14 @@ def check_pair(spec, ha, hb, reload_b=False):
         cont = [(dict(A.DEFAULTS), 1.0)]
     try:
         for e in cont:
-            b.fill(*e)
+            b.fill(A.fresh(e[0]), e[1])
         d = C.diff(a.toJson(), adoc)
         if d:
             out.append(core.v_diff(PROP, drv, "a changed when b was filled after a+=b", d, a.toJson(), args))
             return out
         bdoc = b.toJson()
         for e in cont:
-            a.fill(*e)
+            a.fill(A.fresh(e[0]), e[1])
         d = C.diff(b.toJson(), bdoc)
         if d:
             out.append(core.v_diff(PROP, drv, "b changed when a was filled after a+=b", d, b.toJson(), args))
